@@ -546,14 +546,14 @@ pub fn check(tier: &str) -> i32 {
         },
         "assumptions": ["the pointer seam sees every Atomic::load and retire_shared (one choke point in src/reclaim.rs)", "swap/compare_exchange take the guard only as a lifetime witness and are not attributed"]
     });
-    let _ = std::fs::create_dir_all(format!("{}/evidence", crate::orch::VERIF_DIR));
-    let _ = std::fs::write(format!("{}/evidence/C09.json", crate::orch::VERIF_DIR), serde_json::to_string_pretty(&ev).unwrap());
+    let _ = std::fs::create_dir_all(format!("{}/evidence", crate::orch::verif_dir()));
+    let _ = std::fs::write(format!("{}/evidence/C09.json", crate::orch::verif_dir()), serde_json::to_string_pretty(&ev).unwrap());
     println!("C09: {} cases ({} methods x states x foreign-argument positions x stall points), {} rejected by panic, {} returned without using the foreign guard, {} violations", results.len(), map_methods().len() + set_methods().len(), rejected, harmless, violations.len());
     if violations.is_empty() {
         println!("OK property=C09 held on everything explored");
         return 0;
     }
-    let dir = format!("{}/replays", crate::orch::VERIF_DIR);
+    let dir = format!("{}/replays", crate::orch::verif_dir());
     let _ = std::fs::create_dir_all(&dir);
     let path = format!("{}/C09-foreign-guard-accepted.json", dir);
     let rep: Value = json!({"format": "flurry-sim-c09-1", "property": "C09", "class": "foreign-guard-accepted",
